@@ -305,6 +305,14 @@ func mkState(b, succ *ssa.BasicBlock) wstate {
 // feasible: may the walker leave b through successor k, given it entered b from via?  When b
 // branches on a bool phi whose incoming value from via is a constant, only one successor is.
 func feasible(b *ssa.BasicBlock, k int, via *ssa.BasicBlock) bool {
+	if iff, ok := lastInstr(b).(*ssa.If); ok {
+		if c, ok := iff.Cond.(*ssa.Const); ok && c.Value != nil && c.Value.Kind() == constant.Bool {
+			if constant.BoolVal(c.Value) {
+				return k == 0
+			}
+			return k == 1
+		}
+	}
 	if via == nil {
 		return true
 	}
